@@ -158,7 +158,23 @@ impl Mon {
     }
 
     /// Power-loss state: the live tree with every regular file reverted to its last synced image
+    /// Power-loss state of the directory as it is right now (used outside of a libc call)
+    pub fn power_state_now(&mut self, label: &str) -> Option<Snap> {
+        let before = self.snaps.len();
+        let k = self.calls;
+        self.snapshot_power_desc(format!("power loss {label}"), k.wrapping_add(1_000_000), 0);
+        if self.snaps.len() > before {
+            self.snaps.pop()
+        } else {
+            None
+        }
+    }
+
     fn snapshot_power(&mut self, c: &Call, k: u32, variant: u8) {
+        self.snapshot_power_desc(format!("power loss before {} {}", c.kind.name(), norm(c.rel)), k, variant);
+    }
+
+    fn snapshot_power_desc(&mut self, desc: String, k: u32, variant: u8) {
         let dir = self.scratch.join(format!("power-{k}"));
         let live = self.live.clone();
         let files = fsutil::list_files(&live);
@@ -224,7 +240,7 @@ impl Mon {
             dir,
             call: k,
             kind: "power".into(),
-            desc: format!("power loss before {} {}", c.kind.name(), norm(c.rel)),
+            desc,
             torn: None,
         });
     }
